@@ -359,7 +359,10 @@ def run(ctx):
     # ---- R6
     r6(ctx, p, cg, K)
 
-    ctx.note("not decided: finiteness of samples / NaN only after runaway growth (numerical property of a recursive filter)")
+    # ---- R8
+    r8(ctx, p, cg, K)
+
+    ctx.note("not decided: finiteness of samples in general / NaN only after runaway growth (numerical property of a recursive filter); R8 decides only the 0/0-from-an-empty-count part of `never out of nothing`")
     ctx.note("not decided: bounds checks and usize arithmetic inside the numeric kernels (counted in units_analysed.kernel_checks, not judged)")
     ctx.assume("voices are loader-built and well-formed (trees cover states 2..2+nstate; LF0 stream width 1; odd LPF order when a third stream exists)")
     ctx.assume("engine built by Engine::load (condition vectors have one entry per stream)")
@@ -533,6 +536,112 @@ def odd_lpf(ctx, p, site):
                  "SpeechGenerator::new panics for every non-empty utterance (%s)" % (show(c), "; ".join(bad)), site.loc())
     else:
         ctx.ok("C01-R6", "T2 odd-LPF panic: unreachable for the 2-stream placeholder (widths %s); 3-stream LPF order is odd (voice-format fact)" % widths, site.loc())
+
+
+
+# ---- R8: no 0/0 "out of nothing": float divisions by an integer count
+FDIV_T2 = {
+    # key: fdiv|function|divisor shape -> reason
+    "fdiv|mlpg_adjust::mlpg::MlpgGlobalVariance::<'a>::calc_hmmobj_derivative|(Mul(self.mtx.win_size, self.mtx.length) as f64)":
+        "called only from parmgen behind gv_length != 0 (checked: caller guard on gv_length); gv_length counts entries of gv_switch, whose length is mtx.length (C12-R3/R4), so length >= 1; win_size = windows.size() >= 1 for every loaded stream (a stream without windows fails to parse)",
+    "fdiv|mlpg_adjust::mlpg::MlpgGlobalVariance::<'a>::next_step|(Mul(self.mtx.win_size, self.mtx.length) as f64)":
+        "as calc_hmmobj_derivative: behind parmgen's gv_length != 0",
+    "fdiv|mlpg_adjust::mlpg::MlpgGlobalVariance::<'a>::next_step|(self.mtx.length as f64)":
+        "behind parmgen's gv_length != 0, and gv_length <= mtx.length",
+    "fdiv|mlpg_adjust::mlpg::MlpgGlobalVariance::<'a>::next_step|(Mul(self.mtx.length, self.mtx.length) as f64)":
+        "behind parmgen's gv_length != 0, and gv_length <= mtx.length",
+    "fdiv|model::interporation_weight::Weights::average|(nvoices as f64)":
+        "nvoices = VoiceSet::len() >= 1: VoiceSet::new rejects an empty list (C19-R1)",
+    "fdiv|vocoder::Vocoder::synthesize::{closure#0}|(^*self.fperiod as f64)":
+        "fperiod >= 1: set_fperiod stores max(v, 1) and load_model takes the voice's frame period, itself validated >= 1 ... the increment is computed per frame only",
+    "fdiv|vocoder::Vocoder::synthesize::{closure#2}|(^*self.fperiod as f64)":
+        "as the other filter family",
+    "fdiv|vocoder::excitation::Excitation::start|(fperiod as f64)":
+        "both call sites pass self.fperiod of the Vocoder, which Engine::generator takes from condition.fperiod >= 1 (C20-R1: set_fperiod stores max(v, 1); load_model copies the voice's validated frame period)",
+    "fdiv|vocoder::lsp::LineSpectralPairs::check_lsp_stability|(len(self) as f64)":
+        "len(self) = vector_length of the spectrum stream >= 1 (SpeechGenerator::new receives non-empty rows; an empty spectrum is rejected by the voice metadata check)",
+}
+
+
+def _nonzero_guard(gs, xs):
+    """is one of the normalised guards `X != 0` / `X > 0` / `X >= 1` for the integer expression text xs"""
+    for g in gs:
+        if g[0] not in ("true", "false"):
+            continue
+        pos, c = paths.bool_atoms(g)
+        if c[0] != "bin":
+            continue
+        l, r = show(c[2]), c[3]
+        if l != xs or r[0] != "c":
+            continue
+        v, op = r[1], c[1]
+        if (op == "Eq" and not pos and v == 0) or (op == "Ne" and pos and v == 0) or (op == "Gt" and pos and v == 0) or (op == "Ge" and pos and v == 1) or (op == "Le" and not pos and v == 0) or (op == "Lt" and not pos and v == 1):
+            return True
+    return False
+
+
+def r8(ctx, p, cg, K):
+    ctx.rule("C01-R8", "no 0/0 out of nothing: every f64 division in K whose divisor is an integer count converted to f64 is behind a proof that the count is non-zero - a dominating guard in the function, a dominating guard at every call site (up to two levels), or an audited reason (FDIV_T2)")
+    callers = {}
+    for a, bs in cg.edges.items():
+        if a in K:
+            for b_ in bs:
+                callers.setdefault(b_, set()).add(a)
+    n = 0
+    used = set()
+    for path in sorted(K):
+        b = p.bodies[path]
+        eb = ExprBuilder(b)
+        for bb, i, st in b.iter_stmts():
+            if not (st["k"] == "assign" and st["rv"]["k"] == "binop" and st["rv"]["op"] == "Div"):
+                continue
+            den = eb.at(bb, i).op(st["rv"]["b"])
+            if not (den[0] == "cast" and den[1] in ("f64", "f32") and den[3] not in ("f64", "f32")):
+                continue
+            n += 1
+            X = den[2]
+            xs = show(X)
+            loc = cm.loc_of(st["span"])
+            # range-loop variable starting at >= 1, or a non-zero constant
+            from ..ledger import _range_loop_var
+            rl = _range_loop_var(b, eb, X)
+            if X[0] == "c" and X[1] != 0 or (rl and rl[0][0] == "c" and rl[0][1] >= 1):
+                ctx.ok("C01-R8", "T1 %s: divisor %s is a non-zero constant / a loop variable starting at >= 1" % (cm.short(path), xs[:60]), loc)
+                continue
+            if _nonzero_guard(paths.guards(b, bb, eb), xs):
+                ctx.ok("C01-R8", "T1 %s: division by (%s as f64) is dominated by %s != 0" % (cm.short(path), xs, xs), loc)
+                continue
+            # guard at every call site, when the count is a field of self and self is passed on
+            def guarded_by_callers(fn, depth):
+                cs = callers.get(fn, set())
+                if not cs or depth > 2 or not xs.startswith("self."):
+                    return False
+                for c_ in cs:
+                    cbd = p.bodies[c_]
+                    ceb = ExprBuilder(cbd)
+                    sites = cm.local_calls(cbd, p, exact=fn)
+                    if not sites:
+                        return False
+                    for cbb, ct in sites:
+                        recv = show(ceb.at(cbb).op(ct["args"][0])) if ct["args"] else ""
+                        if recv != "self":
+                            return False
+                        if not _nonzero_guard(paths.guards(cbd, cbb, ceb), xs) and not guarded_by_callers(c_, depth + 1):
+                            return False
+                return True
+            if guarded_by_callers(path, 1):
+                ctx.ok("C01-R8", "T1 %s: every call site (transitively) is dominated by %s != 0" % (cm.short(path), xs), loc)
+                continue
+            key = "fdiv|%s|%s" % (path, show(den))
+            if key in FDIV_T2:
+                used.add(key)
+                ctx.ok("C01-R8", "T2 " + key, loc, FDIV_T2[key])
+                continue
+            ctx.fail("C01-R8", path, "float division by count " + show(den)[:60], "division by (%s as f64) with no proof that the count is non-zero (no dominating guard here or at the call sites, not audited): an empty frame set would give 0/0 = NaN out of nothing" % xs, loc)
+    ctx.anchor("C01-R8", "float divisions by an integer count in K", n, 8)
+    for k in FDIV_T2:
+        if k not in used:
+            ctx.note("FDIV_T2 entry not matched by any site: " + k)
 
 
 def r7(ctx, p):
